@@ -785,6 +785,8 @@ def run(an: Analysis, rep):
     rep.run(r115, an, rep)
     from .common import purity
     rep.run(purity, an, rep, "R11.P", ["from_code", "to_code"])
+    from .common import assert_guard_rule
+    rep.run(assert_guard_rule, an, rep, "R11.A", ["from_code", "to_code"])
     from . import c01 as _c01
     rep.run(_c01.r01a, an, rep, "R11.L", "not dropped")
     from .common import truthiness_rule
